@@ -668,3 +668,283 @@ Proof.
          [0; 0; 0; 0; 0; 0; 0; 0; 0; 0; 1; 1; 1; 0]%nat, (CMemo 1).
   destruct cfg as [a b n v m]; cbn in H; subst; vm_compute; auto.
 Qed.
+
+(* ---------------------------------------------------------------- termination: every call returns *)
+Lemma length_lastn {A} n (l : list A) : (length (lastn n l) <= n)%nat.
+Proof. unfold lastn. rewrite skipn_length. lia. Qed.
+
+Lemma fold_fuel_ge {A} (g : A -> nat) l a :
+  (a <= fold_left (fun n t => (n + g t)%nat) l a)%nat /\
+  (forall t, In t l -> (a + g t <= fold_left (fun n t => (n + g t)%nat) l a)%nat).
+Proof.
+  revert a; induction l as [|x l IH]; intros a; cbn.
+  - split; [lia|intros t []].
+  - destruct (IH (a + g x)%nat) as [H1 H2]. split; [lia|].
+    intros t [->|Hin]; [lia|]. specialize (H2 t Hin). lia.
+Qed.
+
+Section Termination.
+  Variable cfg : config.
+  Variable f : Z -> Z.
+  Variable conv : Z -> Z -> Z.
+  Notation step_thread := (step_thread cfg f conv).
+  Notation step_at := (step_at cfg f conv).
+  Notation run := (run cfg f conv).
+  Notation M := (maxlen cfg).
+
+  Definition it_len (it : iter) : nat :=
+    match it with ItDirect _ _ c _ => c | ItSnap r => length r end.
+
+  (* a measure of what a thread still has to do inside its current call *)
+  Definition rank (p : pc) : nat :=
+    match p with
+    | PIdle => 0
+    | PcGet _ _ _ => 2 * M + 12
+    | PcStore _ _ _ => 2 * M + 11
+    | PcIterStart _ _ _ _ => 2 * M + 10
+    | PcNext _ _ _ _ it => 2 * it_len it + 8
+    | PcBody _ _ _ it _ => 2 * it_len it + 9
+    | PcCompute _ _ _ => 5
+    | PcGet2 _ _ _ _ => 4
+    | PcStore2 _ _ _ _ => 3
+    | PcAppend _ _ _ _ _ => 2
+    | PaGet _ _ sub => if sub then 17 else 20
+    | PaPartner _ _ sub => if sub then 16 else 19
+    | PaSub _ => 18
+    | PaConvSet _ _ sub _ => if sub then 15 else 5
+    | PaReget _ _ sub => if sub then 14 else 4
+    | PaCompute _ _ sub => if sub then 13 else 3
+    | PaSet _ _ sub _ => if sub then 12 else 1
+    | PmHas _ => 4
+    | PmCompute _ => 3
+    | PmSet _ _ => 2
+    | PmGet _ => 1
+    | PpCompute _ => 1
+    end%nat.
+
+  Definition K : nat := (2 * M + 21)%nat.
+  Definition mu (t : thread) : nat := (rank (pcs t) + K * length (todo t))%nat.
+
+  Definition heap_bounded (sh : shared) : Prop := Forall (fun d => (length (items d) <= M)%nat) (heap sh).
+  Definition pc_bounded (p : pc) : Prop :=
+    match p with
+    | PcNext _ _ _ _ it | PcBody _ _ _ it _ => (it_len it <= M)%nat
+    | PaGet _ w sub | PaPartner _ w sub | PaConvSet _ w sub _ | PaReget _ w sub
+    | PaCompute _ w sub | PaSet _ w sub _ => sub = true -> w = false
+    | _ => True
+    end.
+  Definition bounded (st : state) : Prop :=
+    heap_bounded (fst st) /\ Forall (fun t => pc_bounded (pcs t)) (snd st).
+
+  Lemma rank_start c : (rank (start c) < K)%nat.
+  Proof. unfold K; destruct c; cbn; lia. Qed.
+
+  Lemma iter_next_len sh it e it' : iter_next sh it = Ok (Some (e, it')) -> (S (it_len it') = it_len it)%nat.
+  Proof.
+    destruct it as [id st c pos|r]; cbn.
+    - destruct (nth_error (heap sh) id); [|discriminate].
+      destruct (negb (dstate d =? st)); [discriminate|]. destruct c; [discriminate|].
+      destruct (nth_error (items d) pos); [|discriminate]. intros H; inversion H; reflexivity.
+    - destruct r; [discriminate|]. intros H; inversion H; reflexivity.
+  Qed.
+
+  (* one step of an unfinished thread: the bounds are kept and the measure strictly decreases *)
+  Lemma step_measure sh t :
+    heap_bounded sh -> pc_bounded (pcs t) ->
+    heap_bounded (fst (step_thread sh t)) /\ pc_bounded (pcs (snd (step_thread sh t))) /\
+    (finished t = false -> (mu (snd (step_thread sh t)) < mu t)%nat).
+  Proof.
+    intros Hh Hp. unfold step_thread, mu, finished.
+    destruct (pcs t) eqn:Epc; cbn in Hp.
+    - (* PIdle *)
+      destruct (todo t) as [|c r] eqn:Et; cbn; rewrite ?Epc, ?Et; cbn.
+      + repeat split; auto. discriminate.
+      + repeat split; auto. { destruct c; cbn; auto; discriminate. }
+        intros _. pose proof (rank_start c). rewrite Nat.mul_succ_r. unfold K in *. lia.
+    - destruct (alookup name (dd sh)); cbn; repeat split; auto; intros _; lia.
+    - cbn. repeat split; auto; try (intros _; lia).
+      unfold heap_bounded, new_deque; cbn. apply Forall_app; split; auto. repeat constructor. cbn; lia.
+    - destruct (nth_error (heap sh) id) as [d|] eqn:E; cbn; repeat split; auto; try (intros _; lia).
+      + destruct (snap cfg s); cbn; eapply (Forall_nth_error _ _ _ _ Hh E).
+      + intros _. assert (length (items d) <= M)%nat by (eapply (Forall_nth_error _ _ _ _ Hh E)).
+        destruct (snap cfg s); cbn; lia.
+    - destruct (iter_next sh it) as [[[e it']|]|x] eqn:En; cbn; repeat split; auto; try (intros _; lia).
+      + apply iter_next_len in En. lia.
+      + intros _. apply iter_next_len in En. lia.
+    - destruct (fst item =? key); cbn; repeat split; auto; intros _; lia.
+    - cbn; repeat split; auto; intros _; lia.
+    - destruct (alookup name (dd sh)); cbn; repeat split; auto; intros _; lia.
+    - cbn. repeat split; auto; try (intros _; lia).
+      unfold heap_bounded, new_deque; cbn. apply Forall_app; split; auto. repeat constructor. cbn; lia.
+    - destruct (nth_error (heap sh) id) as [d|] eqn:E; cbn; repeat split; auto; try (intros _; lia).
+      unfold heap_bounded, set_heap; cbn. apply Forall_upd_nth; auto.
+      unfold deque_append; cbn. apply length_lastn.
+    - destruct (alookup (akey arr w) (attrs sh)); cbn; unfold aret; destruct sub; cbn;
+        repeat split; auto; intros _; lia.
+    - destruct sub; [rewrite (Hp eq_refl); cbn [andb]|];
+        destruct (alookup (akey arr _) (attrs sh)); cbn;
+        try (destruct (w && csc_via_csr cfg); cbn); repeat split; auto; try (intros _; lia); try discriminate.
+    - cbn; destruct sub; cbn; repeat split; auto; intros _; lia.
+    - destruct (alookup (akey arr w) (attrs sh)); cbn; unfold aret; destruct sub; cbn;
+        repeat split; auto; intros _; lia.
+    - cbn; repeat split; auto; intros _; lia.
+    - cbn; destruct sub; cbn; repeat split; auto; intros _; lia.
+    - cbn; unfold aret; destruct sub; cbn; repeat split; auto; intros _; lia.
+    - destruct (alookup key (memo sh)); cbn; repeat split; auto; intros _; lia.
+    - destruct (alookup key (memo sh)); cbn; repeat split; auto; intros _; lia.
+    - cbn; repeat split; auto; try (intros _; lia).
+      unfold memo_evict. destruct (memo_clear_bound cfg); auto. destruct (Nat.leb n (length (memo sh))); auto.
+    - cbn; repeat split; auto; intros _; lia.
+    - cbn; repeat split; auto; intros _; lia.
+  Qed.
+
+  Notation drain := (drain cfg f conv).
+
+  Lemma upd_nth_same {A} i (x : A) l : nth_error l i = Some x -> upd_nth i x l = l.
+  Proof. revert i; induction l; intros [|i]; cbn; intros H; try discriminate; [inversion H; auto|f_equal; auto]. Qed.
+
+  Definition fin_at (i : nat) (st : state) : bool :=
+    match nth_error (snd st) i with Some t => finished t | None => true end.
+
+  Lemma finished_step sh t : finished t = true -> step_thread sh t = (sh, t).
+  Proof.
+    unfold finished, step_thread. destruct (pcs t); try discriminate. destruct (todo t); try discriminate. auto.
+  Qed.
+
+  Lemma step_at_fin i st : fin_at i st = true -> step_at i st = st.
+  Proof.
+    unfold fin_at, step_at. destruct st as [sh ts]; cbn. destruct (nth_error ts i) as [t|] eqn:E; auto.
+    intros Hf. rewrite (finished_step sh t Hf). rewrite (upd_nth_same _ _ _ E). reflexivity.
+  Qed.
+
+  Lemma run_repeat_fin_id i n st : fin_at i st = true -> run (repeat i n) st = st.
+  Proof. intros H; induction n; cbn; auto. unfold run in *; cbn. rewrite (step_at_fin i st H). exact IHn. Qed.
+
+  Lemma step_at_other i j st : i <> j -> nth_error (snd (step_at i st)) j = nth_error (snd st) j.
+  Proof.
+    intros Hne. unfold step_at. destruct (nth_error (snd st) i); auto.
+    destruct (step_thread (fst st) t); cbn. apply nth_error_upd_other; auto.
+  Qed.
+
+  Lemma step_at_length i st : length (snd (step_at i st)) = length (snd st).
+  Proof.
+    unfold step_at. destruct (nth_error (snd st) i); auto.
+    destruct (step_thread (fst st) t); cbn. apply length_upd_nth.
+  Qed.
+
+  Lemma step_at_bounded i st : bounded st -> bounded (step_at i st).
+  Proof.
+    intros [Hh Hp]. unfold step_at. destruct (nth_error (snd st) i) as [t|] eqn:E; [|split; auto].
+    pose proof (step_measure (fst st) t Hh (Forall_nth_error _ _ _ _ Hp E)) as [H1 [H2 _]].
+    destruct (step_thread (fst st) t) as [sh' t']; cbn in *. split; cbn; auto.
+    apply Forall_upd_nth; auto.
+  Qed.
+
+  Lemma run_bounded sched st : bounded st -> bounded (run sched st).
+  Proof. unfold run. revert st; induction sched; cbn; intros; auto using step_at_bounded. Qed.
+
+  Lemma run_length sched st : length (snd (run sched st)) = length (snd st).
+  Proof. unfold run. revert st; induction sched; cbn; intros; auto. rewrite IHsched. apply step_at_length. Qed.
+
+  Lemma run_repeat_other i j n st : i <> j -> nth_error (snd (run (repeat i n) st)) j = nth_error (snd st) j.
+  Proof.
+    intros Hne. revert st; induction n; intros st; cbn; auto.
+    unfold run in *; cbn. rewrite IHn. apply step_at_other; auto.
+  Qed.
+
+  Lemma init_bounded ops progs : bounded (init ops progs).
+  Proof.
+    split; cbn; [constructor|]. induction progs; cbn; constructor; auto. exact I.
+  Qed.
+
+  Lemma mu_zero_finished t : mu t = 0%nat -> finished t = true.
+  Proof.
+    unfold mu, finished, K. intros H.
+    assert (rank (pcs t) = 0)%nat by lia.
+    assert (length (todo t) = 0)%nat by nia.
+    destruct (todo t); [|discriminate].
+    destruct (pcs t); cbn in *; try lia; auto; destruct sub; lia.
+  Qed.
+
+  Lemma run_repeat_fin i n st t :
+    bounded st -> nth_error (snd st) i = Some t -> (mu t <= n)%nat ->
+    fin_at i (run (repeat i n) st) = true.
+  Proof.
+    revert st t; induction n; intros st t Hb Ht Hmu.
+    - cbn. unfold fin_at. rewrite Ht. apply mu_zero_finished. lia.
+    - destruct (finished t) eqn:Ef.
+      + rewrite run_repeat_fin_id; unfold fin_at; rewrite Ht; auto.
+      + change (run (repeat i (S n)) st) with (run (repeat i n) (step_at i st)).
+        destruct Hb as [Hh Hp].
+        pose proof (step_measure (fst st) t Hh (Forall_nth_error _ _ _ _ Hp Ht)) as [_ [_ Hdec]].
+        specialize (Hdec Ef).
+        eapply (IHn (step_at i st) (snd (step_thread (fst st) t))).
+        * apply step_at_bounded; split; auto.
+        * unfold step_at. rewrite Ht. destruct (step_thread (fst st) t); cbn.
+          apply nth_error_upd_same. apply nth_error_Some. congruence.
+        * lia.
+  Qed.
+
+  Lemma rank_le p : pc_bounded p -> (rank p <= 2 * M + 20)%nat.
+  Proof. destruct p; cbn; intros; try lia; destruct sub; lia. Qed.
+
+  Lemma fuel_enough st i t :
+    bounded st -> nth_error (snd st) i = Some t -> (mu t <= coarse_fuel cfg st)%nat.
+  Proof.
+    intros [_ Hp] Ht. unfold coarse_fuel.
+    pose proof (fold_fuel_ge (fun t => (24 + 2 * M) * (1 + length (todo t)))%nat (snd st) 24%nat) as [_ H].
+    specialize (H t (nth_error_In _ _ Ht)).
+    pose proof (rank_le _ (Forall_nth_error _ _ _ _ Hp Ht)).
+    unfold mu, K. nia.
+  Qed.
+
+  Lemma drain_fold l st :
+    bounded st ->
+    let st' := fold_left (fun st i => run (repeat i (coarse_fuel cfg st)) st) l st in
+    bounded st' /\ length (snd st') = length (snd st) /\
+    forall j, (In j l \/ fin_at j st = true) -> fin_at j st' = true.
+  Proof.
+    revert st; induction l as [|i r IH]; intros st Hb; cbn [fold_left].
+    - split; [exact Hb|split; [reflexivity|]]. intros j [[]|H]; exact H.
+    - set (st1 := run (repeat i (coarse_fuel cfg st)) st).
+      assert (Hb1 : bounded st1) by (apply run_bounded; auto).
+      destruct (IH st1 Hb1) as [H1 [H2 H3]]. cbv zeta in *.
+      split; auto. split; [rewrite H2; apply run_length|].
+      intros j Hj. apply H3.
+      destruct (Nat.eq_dec i j) as [<-|Hne].
+      + right. destruct (nth_error (snd st) i) as [t|] eqn:Et.
+        * eapply run_repeat_fin; eauto. eapply fuel_enough; eauto.
+        * unfold fin_at, st1. destruct (nth_error (snd (run (repeat i (coarse_fuel cfg st)) st)) i) eqn:E; auto.
+          exfalso. assert (i < length (snd (run (repeat i (coarse_fuel cfg st)) st)))%nat
+            by (apply nth_error_Some; congruence).
+          rewrite run_length in H. apply nth_error_None in Et. lia.
+      + destruct Hj as [[Hj|Hj]|Hj]; [congruence|auto|].
+        right. unfold fin_at, st1 in *. rewrite run_repeat_other; auto.
+  Qed.
+
+  (* whatever happened before (any schedule prefix), letting the threads run to their end terminates:
+     no protocol loops or blocks, every call returns *)
+  Lemma drain_finishes sched ops progs :
+    all_finished (drain (run sched (init ops progs))) = true.
+  Proof.
+    set (st := run sched (init ops progs)).
+    assert (Hb : bounded st) by (apply run_bounded, init_bounded).
+    destruct (drain_fold (seq 0 (length (snd st))) st Hb) as [_ [Hl Hf]].
+    unfold all_finished, drain. apply forallb_forall. intros t Hin.
+    destruct (In_nth_error _ _ Hin) as [j Hj].
+    assert (Hlt : (j < length (snd st))%nat).
+    { rewrite <- Hl. apply nth_error_Some. congruence. }
+    specialize (Hf j (or_introl (proj2 (in_seq _ _ _) (conj (Nat.le_0_l _) Hlt)))).
+    unfold fin_at in Hf. rewrite Hj in Hf. exact Hf.
+  Qed.
+End Termination.
+
+(* under any schedule followed by letting the threads finish, thread i has exactly one outcome per call
+   of its program, in program order *)
+Lemma every_call_has_outcome cfg f conv sched ops progs :
+  map (map fst) (outputs (drain cfg f conv (run cfg f conv sched (init ops progs)))) = progs.
+Proof.
+  destruct (drain_is_run cfg f conv (run cfg f conv sched (init ops progs))) as [fine E].
+  pose proof (drain_finishes cfg f conv sched ops progs) as Hf.
+  rewrite E in *. rewrite <- run_app in *. apply finished_outputs. exact Hf.
+Qed.
